@@ -40,6 +40,7 @@ const (
 	c03NewTxOut    = "func:" + c03Wire + ".NewTxOut"
 	c03AddTxOut    = "func:(*" + c03Wire + ".MsgTx).AddTxOut"
 	c03NewTxOutput = "func:" + c03ElemTx + ".NewTxOutput"
+	c03AddOutput   = "func:(*" + c03ElemTx + ".Transaction).AddOutput"
 	c03SigHashBtc  = "func:" + c02TxscriptPath + ".CalcWitnessSigHash"
 	c03SigHashElem = "func:(*" + c03ElemTx + ".Transaction).HashForWitnessV0"
 	c03Sign        = "iface:swap.Signer.Sign"
@@ -101,7 +102,7 @@ var c03Fillers = map[string]bool{
 func init() {
 	Register(&Prop{
 		ID:   "C03",
-		Expl: "For every implementation of swap.Wallet.Create{Preimage,Csv,Coop}SpendingTransaction (found by interface satisfaction: 3 back-ends × 3 paths) and with every value resolved context-sensitively through in-module helpers, decides: (R1) the outpoint index given to wire.NewOutPoint / transaction.NewTxInput comes only from an output locator (GetVoutAndVerify / FindVout / VoutFromTxHex) — never a constant, zero value or parameter — and that locator, as well as the outpoint's transaction hash, is applied to ClaimParams.OpeningTxHex of the call's own ClaimParams and to the call's own OpeningParams (directly or through ParamsToTxScript); (R2) the witness stored into the input is built by the constructor of the matching path with the signature of the right signer in each role (own ClaimParams.Signer; for coop the taker signer argument first, own signer second), the preimage from ClaimParams.Preimage, the script from ParamsToTxScript on the call's OpeningParams, and the input sequence is 0 / lock-time-disabled on the preimage and coop paths and, on the CSV path, comes from exactly the source that feeds the csv argument of that ParamsToTxScript call; (R3) every signature signs the result of the sighash call whose script argument is that same ParamsToTxScript result, with SIGHASH_ALL, input 0, and as amount OpeningParams.Amount (Bitcoin) / the value commitment of the located output (Liquid); (R4) the Bitcoin spend adds exactly one output and the Liquid spend one payee plus one explicit fee output with an empty script, outside loops, and the payee script derives only from a wallet address call, constants and the back-end's own configuration; (R5) wherever the locator's index is used, the locator's error result has been tested and — when the locator can return verdict=false together with a nil error — its boolean verdict as well.",
+		Expl: "For every implementation of swap.Wallet.Create{Preimage,Csv,Coop}SpendingTransaction (found by interface satisfaction: 3 back-ends × 3 paths) and with every value resolved context-sensitively through in-module helpers, decides: (R1) the outpoint index given to wire.NewOutPoint / transaction.NewTxInput comes only from an output locator (GetVoutAndVerify / FindVout / VoutFromTxHex) — never a constant, zero value or parameter — and that locator, as well as the outpoint's transaction hash, is applied to ClaimParams.OpeningTxHex of the call's own ClaimParams and to the call's own OpeningParams (directly or through ParamsToTxScript); (R2) the witness stored into the input is built by the constructor of the matching path with the signature of the right signer in each role (own ClaimParams.Signer; for coop the taker signer argument first, own signer second), the preimage from ClaimParams.Preimage, the script from ParamsToTxScript on the call's OpeningParams, and the input sequence is 0 / lock-time-disabled on the preimage and coop paths and, on the CSV path, comes from exactly the source that feeds the csv argument of that ParamsToTxScript call; (R3) every signature signs the result of the sighash call whose script argument is that same ParamsToTxScript result, with SIGHASH_ALL, input 0, and as amount OpeningParams.Amount (Bitcoin) / the value commitment of the located output (Liquid); (R4) the Bitcoin spend adds exactly one output and the Liquid spend one payee plus one explicit fee output with an empty script, outside loops, and the payee script derives only from a wallet address call, constants and the back-end's own configuration; (R5) wherever the locator's index is used, the locator's error result has been tested and — when the locator can return verdict=false together with a nil error — its boolean verdict as well (a wrapper that returns index and error together is followed to its callers); (R6) sibling agreement with the validator: on every success return of a Bitcoin output locator the reported index is the position, in the outputs of the transaction argument, of an output that was selected under BOTH `out.Value == int64(params.Amount)` and equality of its PkScript with a script derived from ParamsToTxScript(params, …) — the selection ValidateTx makes and the amount the builders sign for. A deviation is reported as a violation only when every source involved was interpreted; an uninterpreted helper, library call or shape ends in 'cannot decide'.",
 		NotD: "Consensus validity of the built transaction, signature correctness, that the CSV has elapsed when the refund is broadcast, fee size (including the constant 200 sat that BitcoinOnChain.PrepareSpendingTransaction subtracts in addition to the fee), blinding arithmetic of the Liquid output.",
 		Run:  runC03,
 	})
@@ -366,6 +367,16 @@ func (t *c03Tracer) alloc(al *ssa.Alloc, fr *c03Frame, s *c03Set, seen map[c03Ke
 					kind = "unknown" // filled by a callee through its address
 				}
 			}
+			// a composite literal / a struct assigned field by field: the rules look at its fields
+			for _, r := range *al.Referrers() {
+				if fa, ok := r.(*ssa.FieldAddr); ok && fa.X == al && fa.Referrers() != nil {
+					for _, rr := range *fa.Referrers() {
+						if st, ok := rr.(*ssa.Store); ok && st.Addr == fa {
+							kind = "alloc"
+						}
+					}
+				}
+			}
 		}
 		s.Leaves = append(s.Leaves, c03Leaf{Kind: kind, Name: "local " + types.TypeString(al.Type(), nil), Val: al, Fr: fr})
 	}
@@ -433,6 +444,18 @@ func (t *c03Tracer) call(c *ssa.Call, idx int, fr *c03Frame, s *c03Set, seen map
 		s.Ops[strings.TrimPrefix(name, "builtin:")] = true
 		args()
 		return
+	case ci.Static != nil && ci.PkgPath == "github.com/btcsuite/btcd/btcutil" &&
+		(ci.Static.Name() == "ScriptAddress" || ci.Static.Name() == "DecodeAddress" || strings.HasPrefix(ci.Static.Name(), "NewAddress")):
+		// btcutil address constructors / accessors: pure functions of their arguments
+		s.Ops["via:"+name] = true
+		args()
+		return
+	case ci.Static != nil && !t.w.InModule(ci.Static) && c03ValueOnlyStdlib(ci.PkgPath):
+		// standard-library functions outside the packages that read the environment:
+		// the result is a function of the arguments (and receiver) only
+		s.Ops["via:"+name] = true
+		args()
+		return
 	case name == c03NewMsgTx:
 		// a fresh transaction that is filled from a reader: continue into the reader
 		filled := false
@@ -470,6 +493,27 @@ func (t *c03Tracer) call(c *ssa.Call, idx int, fr *c03Frame, s *c03Set, seen map
 		return
 	}
 	s.Leaves = append(s.Leaves, c03Leaf{Kind: "call", Name: name, Val: c, Call: c, Idx: idx, Fr: fr})
+}
+
+// c03ValueOnlyStdlib: a standard-library package (no dot in the first path
+// element) that is not one of those whose results depend on the environment.
+func c03ValueOnlyStdlib(pkg string) bool {
+	if pkg == "" {
+		return false
+	}
+	first := pkg
+	if i := strings.Index(pkg, "/"); i >= 0 {
+		first = pkg[:i]
+	}
+	if strings.Contains(first, ".") {
+		return false
+	}
+	switch pkg {
+	case "crypto/rand", "math/rand", "math/rand/v2", "time", "os", "os/exec", "net", "net/http", "sync", "sync/atomic",
+		"context", "runtime", "reflect", "unsafe", "io/ioutil", "syscall", "log", "flag":
+		return false
+	}
+	return true
 }
 
 func c03IsZeroConst(v ssa.Value) bool {
@@ -630,6 +674,62 @@ func (m *c03Impl) callsIn(w *an.World, names ...string) []c03Site {
 	return out
 }
 
+// c03LiteralField returns the values stored into field `key` (pkgpath.Type.Field)
+// of a local struct.
+func c03LiteralField(al *ssa.Alloc, key string) []ssa.Value {
+	var out []ssa.Value
+	if al.Referrers() == nil {
+		return nil
+	}
+	for _, r := range *al.Referrers() {
+		fa, ok := r.(*ssa.FieldAddr)
+		if !ok || fa.X != al || c03FieldKey(fa) != key || fa.Referrers() == nil {
+			continue
+		}
+		for _, rr := range *fa.Referrers() {
+			if st, ok := rr.(*ssa.Store); ok && st.Addr == fa {
+				out = append(out, st.Val)
+			}
+		}
+	}
+	return out
+}
+
+// c03Opaque: some leaf is something the tracer could not look into (an
+// unresolved local, an interface / library call that is not in a rule table):
+// a verdict based on such a set is "cannot decide", never a violation.
+func c03Opaque(ls []c03Leaf, known func(c03Leaf) bool) bool {
+	for _, l := range ls {
+		if known != nil && known(l) {
+			continue
+		}
+		if l.Kind == "call" && c03TableCall(l.Name) {
+			continue // a call the rule tables identify: its meaning is known
+		}
+		switch l.Kind {
+		case "unknown", "alloc", "call", "global":
+			return true
+		case "field":
+			if len(l.Base) > 0 && c03Opaque(l.Base, known) {
+				return true
+			}
+		}
+	}
+	return false
+}
+
+// c03TableCall: the callee is named in one of the frozen tables of this file.
+func c03TableCall(name string) bool {
+	if _, ok := c03Locators[name]; ok {
+		return true
+	}
+	switch name {
+	case c03Script, c03Sign, c03SigHashBtc, c03SigHashElem, c03NewTxOut, c03NewTxOutput, c03NewOutPoint, c03NewTxInput:
+		return true
+	}
+	return c03AddressCalls[name]
+}
+
 func c03FieldKey(fa *ssa.FieldAddr) string {
 	n := an.NamedOf(fa.X.Type())
 	if n == nil || n.Obj().Pkg() == nil {
@@ -751,6 +851,7 @@ func runC03(c *an.Check) {
 	c.Rule("C03.R2", "witness constructor, signer roles, preimage, script and input sequence match the spend path (sequence 0 on preimage/coop; on CSV the source of the script's csv argument)")
 	c.Rule("C03.R3", "each signature signs the sighash computed over the witness script with SIGHASH_ALL, input 0 and OpeningParams.Amount (Bitcoin) / the located output's value commitment (Liquid)")
 	c.Rule("C03.R4", "exactly one payee output (plus the explicit Liquid fee output), outside loops, whose script derives from a wallet address call")
+	c.Rule("C03.R6", "sibling agreement with the validator: on every success return of a Bitcoin output locator the returned index is that of an output selected under BOTH `out.Value == params.Amount` and equality of its script with the script derived from ParamsToTxScript(params, …) — the selection ValidateTx makes (C01.R6) and the amount the builders sign for (R3)")
 	c.Rule("C03.R5", "the index of a locator is only used after its error — and, if verdict=false can come with a nil error, its verdict — has been tested")
 	w := c.W
 
@@ -802,7 +903,7 @@ func runC03(c *an.Check) {
 		return
 	}
 
-	n1, n2, n3, n4 := 0, 0, 0, 0
+	n1, n2, n3, n4, nLocImpl := 0, 0, 0, 0, 0
 	r5sites := map[*ssa.Call]*c03Impl{}
 	var r5order []*ssa.Call
 	for _, m := range impls {
@@ -822,6 +923,9 @@ func runC03(c *an.Check) {
 			names = append(names, n)
 		}
 		sort.Strings(names)
+		if len(locs) > 0 || len(m.callsIn(w, names...)) > 0 {
+			nLocImpl++
+		}
 		for _, s := range m.callsIn(w, names...) {
 			if lc, ok := s.in.(*ssa.Call); ok {
 				if _, ok := r5sites[lc]; !ok {
@@ -847,7 +951,8 @@ func runC03(c *an.Check) {
 	c.AtLeast("C03.R2", "implementations with a resolved witness", n2, 9)
 	c.AtLeast("C03.R3", "implementations with a resolved sighash", n3, 9)
 	c.AtLeast("C03.R4", "implementations with resolved outputs", n4, 9)
-	c03R5(c, r5order, r5sites)
+	c03R5(c, r5order, r5sites, nLocImpl)
+	c03R6(c, tr, scriptParamsIdx)
 }
 
 // ---------------------------------------------------------------------------------
@@ -870,7 +975,14 @@ func c03R1(c *an.Check, m *c03Impl) ([]*ssa.Call, bool) {
 	}
 	for _, s := range m.storesIn(c03Wire+".OutPoint.Index", c03ElemTx+".TxInput.Index") {
 		st := s.in.(*ssa.Store)
-		sinks = append(sinks, sink{s.fr, st.Pos(), st.Val, nil})
+		var hash ssa.Value
+		if al, ok := st.Addr.(*ssa.FieldAddr).X.(*ssa.Alloc); ok {
+			hs := append(c03LiteralField(al, c03Wire+".OutPoint.Hash"), c03LiteralField(al, c03ElemTx+".TxInput.Hash")...)
+			if len(hs) == 1 {
+				hash = hs[0]
+			}
+		}
+		sinks = append(sinks, sink{s.fr, st.Pos(), st.Val, hash})
 	}
 	if len(sinks) == 0 {
 		c.Unknown("C03.R1", cons, w.Pos(m.fn.Pos()), "no wire.NewOutPoint / transaction.NewTxInput call and no store to an outpoint index is reached from this implementation")
@@ -881,6 +993,15 @@ func c03R1(c *an.Check, m *c03Impl) ([]*ssa.Call, bool) {
 		pos := w.Pos(sk.pos)
 		set := m.tr.Trace(sk.idx, sk.fr)
 		bad, unknown := "", ""
+		// a deviation is a violation only if every source was interpreted
+		isScript := func(l c03Leaf) bool { return l.Kind == "call" && l.Name == c03Script }
+		flag := func(ls []c03Leaf, msg string) {
+			if c03Opaque(ls, isScript) {
+				unknown = msg + " (some sources are not interpretable)"
+			} else {
+				bad = msg
+			}
+		}
 		if ops := set.OpsBeyond("convert:"); len(ops) > 0 {
 			unknown = fmt.Sprintf("the outpoint index is computed (%v) from %v", ops, set.Names())
 		}
@@ -892,13 +1013,14 @@ func c03R1(c *an.Check, m *c03Impl) ([]*ssa.Call, bool) {
 				// the transaction the locator looks at
 				txs := m.tr.Trace(l.Call.Call.Args[loc.TxArg], l.Fr)
 				if !m.onlyOpeningHex(txs.Leaves) {
-					bad = fmt.Sprintf("the output locator %s is applied to %s, not (only) to ClaimParams.OpeningTxHex of this call", strings.TrimPrefix(l.Name, "func:"), c03Describe(c03Roots(txs.Leaves, m.isOpeningHex)))
+					roots := c03Roots(txs.Leaves, m.isOpeningHex)
+					flag(roots, fmt.Sprintf("the output locator %s is applied to %s, not (only) to ClaimParams.OpeningTxHex of this call", strings.TrimPrefix(l.Name, "func:"), c03Describe(roots)))
 				}
 				// the swap it looks for
 				ps := m.tr.Trace(l.Call.Call.Args[loc.ParamsArg], l.Fr)
 				if !loc.ByScript {
 					if !m.onlyParam(ps.Leaves, m.paramsP) {
-						bad = fmt.Sprintf("the output locator searches with %s, not with the OpeningParams of this call", c03Describe(ps.Leaves))
+						flag(ps.Leaves, fmt.Sprintf("the output locator searches with %s, not with the OpeningParams of this call", c03Describe(ps.Leaves)))
 					}
 				} else {
 					okScript := len(ps.Leaves) > 0
@@ -913,7 +1035,7 @@ func c03R1(c *an.Check, m *c03Impl) ([]*ssa.Call, bool) {
 						}
 					}
 					if !okScript {
-						bad = fmt.Sprintf("the output locator searches for a script from %s, not for ParamsToTxScript of this call's OpeningParams", c03Describe(ps.Leaves))
+						flag(ps.Leaves, fmt.Sprintf("the output locator searches for a script from %s, not for ParamsToTxScript of this call's OpeningParams", c03Describe(ps.Leaves)))
 					}
 				}
 			case l.Kind == "const" || l.Kind == "zero":
@@ -923,7 +1045,8 @@ func c03R1(c *an.Check, m *c03Impl) ([]*ssa.Call, bool) {
 			case l.Kind == "unknown":
 				unknown = "the outpoint index comes from " + l.String()
 			default:
-				bad = "the outpoint index comes from " + l.String() + ", which is not an output locator"
+				// a call / field / global this rule has no table entry for: it may well be a locator
+				unknown = "the outpoint index comes from " + l.String() + ", which is not a known output locator"
 			}
 		}
 		if len(set.Leaves) == 0 {
@@ -934,13 +1057,7 @@ func c03R1(c *an.Check, m *c03Impl) ([]*ssa.Call, bool) {
 			hs := m.tr.Trace(sk.hash, sk.fr)
 			if !m.onlyOpeningHex(hs.Leaves) {
 				roots := c03Roots(hs.Leaves, m.isOpeningHex)
-				undecidable := false
-				for _, r := range roots {
-					if r.Kind == "unknown" || (r.Kind == "call" && !m.isOpeningHex(r)) {
-						undecidable = true
-					}
-				}
-				if undecidable {
+				if c03Opaque(roots, nil) {
 					unknown = "cannot tell which transaction's hash goes into the outpoint: " + c03Describe(roots)
 				} else {
 					bad = "the outpoint's transaction hash derives from " + c03Describe(roots) + ", not from ClaimParams.OpeningTxHex of this call"
@@ -966,6 +1083,48 @@ type c03Witness struct {
 	script   *ssa.Call // the ParamsToTxScript call whose result is the witness script
 	scriptFr *c03Frame
 	sighash  []c03Leaf // sighash calls whose result is signed
+}
+
+// constOnly: every source of v is the integer constant want ("ok"), some
+// source is another constant ("bad"), or v is not a constant ("unknown").
+func (m *c03Impl) constOnly(v ssa.Value, fr *c03Frame, want int64) string {
+	set := m.tr.Trace(v, fr)
+	if len(set.Leaves) == 0 || len(set.OpsBeyond("convert:")) > 0 {
+		return "unknown"
+	}
+	for _, l := range set.Leaves {
+		if l.Kind != "const" {
+			return "unknown"
+		}
+	}
+	for _, l := range set.Leaves {
+		if n, ok := an.ConstInt(l.Val); !ok || n != want {
+			return "bad"
+		}
+	}
+	return "ok"
+}
+
+// sameScriptCall: l is another ParamsToTxScript call with provably the same
+// arguments as the one whose result is in the witness.
+func (m *c03Impl) sameScriptCall(l c03Leaf, ws *c03Witness) bool {
+	if l.Kind != "call" || l.Name != c03Script || ws.script == nil || len(l.Call.Call.Args) != len(ws.script.Call.Args) {
+		return false
+	}
+	for i := range l.Call.Call.Args {
+		a := m.tr.Trace(l.Call.Call.Args[i], l.Fr)
+		b := m.tr.Trace(ws.script.Call.Args[i], ws.scriptFr)
+		if len(a.Leaves) == 0 || c03Opaque(a.Leaves, nil) || c03Opaque(b.Leaves, nil) {
+			return false
+		}
+		if len(a.OpsBeyond("convert:")) > 0 || len(b.OpsBeyond("convert:")) > 0 {
+			return false
+		}
+		if strings.Join(a.Names(), ",") != strings.Join(b.Names(), ",") {
+			return false
+		}
+	}
+	return true
 }
 
 func c03SameCall(a c03Leaf, call *ssa.Call, fr *c03Frame) bool {
@@ -1040,7 +1199,18 @@ func c03R2(c *an.Check, m *c03Impl, witFns map[string]*ssa.Function, witRoles ma
 		// script
 		ss := m.tr.Trace(arg("script"), wl.Fr)
 		if len(ss.Leaves) != 1 || ss.Leaves[0].Kind != "call" || ss.Leaves[0].Name != c03Script || ss.Leaves[0].Idx != 0 {
-			bad = "the witness script is " + strings.Join(ss.Names(), ", ") + ", not the result of ParamsToTxScript"
+			msg := "the witness script is " + strings.Join(ss.Names(), ", ") + ", not the result of ParamsToTxScript"
+			hasScript := false
+			for _, l := range ss.Leaves {
+				if l.Kind == "call" && l.Name == c03Script {
+					hasScript = true
+				}
+			}
+			if hasScript || len(ss.Leaves) == 0 || c03Opaque(ss.Leaves, nil) {
+				unknown = msg + " alone"
+			} else {
+				bad = msg
+			}
 			continue
 		}
 		if ops := ss.OpsBeyond("convert:"); len(ops) > 0 {
@@ -1050,7 +1220,12 @@ func c03R2(c *an.Check, m *c03Impl, witFns map[string]*ssa.Function, witRoles ma
 		res.script, res.scriptFr = ss.Leaves[0].Call, ss.Leaves[0].Fr
 		pp := m.tr.Trace(res.script.Call.Args[scriptParamsIdx], res.scriptFr)
 		if !m.onlyParam(pp.Leaves, m.paramsP) {
-			bad = "the witness script is built from " + c03Describe(pp.Leaves) + ", not from the OpeningParams of this call"
+			msg := "the witness script is built from " + c03Describe(pp.Leaves) + ", not from the OpeningParams of this call"
+			if c03Opaque(pp.Leaves, nil) {
+				unknown = msg
+			} else {
+				bad = msg
+			}
 			continue
 		}
 		// signatures
@@ -1088,6 +1263,8 @@ func c03R2(c *an.Check, m *c03Impl, witFns map[string]*ssa.Function, witRoles ma
 				}
 			}
 			switch {
+			case (sp.own && !isOwn || !sp.own && !isArg) && (len(who.Leaves) == 0 || c03Opaque(who.Leaves, nil)):
+				unknown = fmt.Sprintf("cannot tell who signs witness item <%s>: %s", sp.role, c03Describe(who.Leaves))
 			case sp.own && !isOwn:
 				bad = fmt.Sprintf("witness item <%s> is signed by %s, the path needs the signature of ClaimParams.Signer", sp.role, c03Describe(who.Leaves))
 			case !sp.own && !isArg:
@@ -1095,8 +1272,14 @@ func c03R2(c *an.Check, m *c03Impl, witFns map[string]*ssa.Function, witRoles ma
 			}
 			hs := m.tr.Trace(sl.Call.Call.Args[0], sl.Fr)
 			if len(hs.Leaves) != 1 || hs.Leaves[0].Kind != "call" || (hs.Leaves[0].Name != c03SigHashBtc && hs.Leaves[0].Name != c03SigHashElem) || hs.Leaves[0].Idx != 0 {
-				if bad == "" {
-					bad = "the signature in <" + sp.role + "> signs " + strings.Join(hs.Names(), ", ") + ", not the result of the witness-v0 sighash call"
+				if bad == "" && unknown == "" {
+					msg := "the signature in <" + sp.role + "> signs " + strings.Join(hs.Names(), ", ") + ", not the result of the witness-v0 sighash call"
+					isSH := func(l c03Leaf) bool { return l.Kind == "call" && (l.Name == c03SigHashBtc || l.Name == c03SigHashElem) }
+					if len(hs.Leaves) == 0 || c03Opaque(hs.Leaves, isSH) {
+						unknown = msg
+					} else {
+						bad = msg
+					}
 				}
 			} else if ops := hs.OpsBeyond("convert:"); len(ops) > 0 {
 				unknown = fmt.Sprintf("the signed hash is modified (%v)", ops)
@@ -1120,7 +1303,12 @@ func c03R2(c *an.Check, m *c03Impl, witFns map[string]*ssa.Function, witRoles ma
 				}
 			}
 			if !okP {
-				bad = "the preimage item of the witness comes from " + strings.Join(ps.Names(), ", ") + ", not from ClaimParams.Preimage"
+				msg := "the preimage item of the witness comes from " + strings.Join(ps.Names(), ", ") + ", not from ClaimParams.Preimage"
+				if len(ps.Leaves) == 0 || c03Opaque(ps.Leaves, nil) {
+					unknown = msg
+				} else {
+					bad = msg
+				}
 				continue
 			}
 		}
@@ -1167,10 +1355,24 @@ func c03R2(c *an.Check, m *c03Impl, witFns map[string]*ssa.Function, witRoles ma
 					n, isInt := an.ConstInt(l.Val)
 					switch {
 					case l.Kind != "const" || !isInt:
-						bad = fmt.Sprintf("the input sequence of the %s spend is %s: a relative lock-time on this path delays the claim until the refund path is open as well (protocol: sequence 0)", m.kind, l.String())
+						// a violation only when the value is positively the swap's CSV
+						isCSV := l.Kind == "field" && l.Name == "OpeningParams.CSV"
+						for _, cl := range m.tr.Trace(res.script.Call.Args[scriptCsvIdx], res.scriptFr).Leaves {
+							if cl.Kind != "const" && cl.String() == l.String() {
+								isCSV = true
+							}
+						}
+						if isCSV {
+							bad = fmt.Sprintf("the input sequence of the %s spend is %s, the swap's CSV: a relative lock-time on this path delays the claim until the refund path is open as well (protocol: sequence 0)", m.kind, l.String())
+						} else if unknown == "" {
+							unknown = fmt.Sprintf("the input sequence of the %s spend is %s; cannot tell whether it is 0", m.kind, l.String())
+						}
 					case n != 0 && n&(1<<31) == 0:
 						bad = fmt.Sprintf("the input sequence of the %s spend is the constant %d, i.e. a relative lock-time of that many blocks (protocol: sequence 0)", m.kind, n)
 					}
+				}
+				if bad != "" {
+					unknown = ""
 				}
 				if bad == "" {
 					seqOK = "sequence " + c03Describe(leaves)
@@ -1187,6 +1389,8 @@ func c03R2(c *an.Check, m *c03Impl, witFns map[string]*ssa.Function, witRoles ma
 					seqOK = "sequence and script csv both from " + a
 				case (a == "[const:1008]" && strings.Contains(b, "OpeningParams.CSV")) || (b == "[const:1008]" && strings.Contains(a, "OpeningParams.CSV")):
 					unknown = "sequence is " + a + " and the script csv is " + b + ": equal only for Bitcoin swaps (C02.R3), not decidable here"
+				case c03Opaque(leaves, nil) || c03Opaque(cs.Leaves, nil) || len(cs.Leaves) == 0:
+					unknown = "sequence is " + a + " and the script csv is " + b + ": cannot tell whether they are the same value"
 				default:
 					bad = "the CSV refund sets the input sequence from " + a + " while the script it spends was built with the csv " + b + ": OP_CHECKSEQUENCEVERIFY compares the two, so the refund is invalid (too small) or needlessly late (too large)"
 				}
@@ -1245,20 +1449,42 @@ func c03R3(c *an.Check, m *c03Impl, ws *c03Witness, locs []*ssa.Call) bool {
 			idxArg, scriptArg, amtArg, typeArg = a[1], a[2], a[3], a[4]
 		}
 		ss := m.tr.Trace(scriptArg, sh.Fr)
-		if len(ss.Leaves) != 1 || !c03SameCall(ss.Leaves[0], ws.script, ws.scriptFr) || ss.Leaves[0].Idx != 0 {
-			bad = "the sighash is computed over " + strings.Join(ss.Names(), ", ") + ", not over the ParamsToTxScript result that is placed in the witness: the signature does not commit to the script it is checked against"
+		if len(ss.Leaves) != 1 || ss.Leaves[0].Idx != 0 || !(c03SameCall(ss.Leaves[0], ws.script, ws.scriptFr) || m.sameScriptCall(ss.Leaves[0], ws)) {
+			msg := "the sighash is computed over " + strings.Join(ss.Names(), ", ") + ", not over the ParamsToTxScript result that is placed in the witness: the signature does not commit to the script it is checked against"
+			isScript := func(l c03Leaf) bool { return l.Kind == "call" && l.Name == c03Script }
+			if len(ss.Leaves) == 0 || c03Opaque(ss.Leaves, isScript) {
+				unknown = msg
+			} else {
+				hasScript := false
+				for _, l := range ss.Leaves {
+					if isScript(l) {
+						hasScript = true
+					}
+				}
+				if hasScript && len(ss.Leaves) == 1 {
+					unknown = msg + " (another ParamsToTxScript call whose arguments this rule cannot prove equal)"
+				} else {
+					bad = msg
+				}
+			}
 			break
 		}
 		if ops := ss.OpsBeyond("convert:"); len(ops) > 0 {
 			unknown = fmt.Sprintf("the sighash script is modified (%v)", ops)
 			break
 		}
-		if n, ok := an.ConstInt(typeArg); !ok || n != 1 {
+		if verdict := m.constOnly(typeArg, sh.Fr, 1); verdict == "bad" {
 			bad = "the sighash type is not the constant SIGHASH_ALL (1) that the witness constructors append"
 			break
+		} else if verdict == "unknown" {
+			unknown = "the sighash type is not a compile-time constant"
+			break
 		}
-		if n, ok := an.ConstInt(idxArg); !ok || n != 0 {
+		if verdict := m.constOnly(idxArg, sh.Fr, 0); verdict == "bad" {
 			bad = "the sighash is computed for an input other than the constant 0 (the spend has exactly one input)"
+			break
+		} else if verdict == "unknown" {
+			unknown = "the sighash input index is not a compile-time constant"
 			break
 		}
 		if sh.Name == c03SigHashBtc {
@@ -1269,14 +1495,22 @@ func c03R3(c *an.Check, m *c03Impl, ws *c03Witness, locs []*ssa.Call) bool {
 					okA = false
 				}
 			}
-			if ops := as.OpsBeyond("convert:", "index"); len(ops) > 0 {
+			if ops := as.OpsBeyond("convert:", "index", "via:"); len(ops) > 0 && c03Opaque(as.Leaves, nil) {
+				unknown = fmt.Sprintf("the amount committed to by the signature is computed (%v) from %v", ops, as.Names())
+				break
+			} else if len(ops) > 0 {
 				bad = fmt.Sprintf("the amount committed to by the signature is computed (%v) from %v instead of being OpeningParams.Amount, the value of the output the locator accepts", ops, as.Names())
 				break
 			}
 			if !okA {
 				// equivalent: the value of the located output itself (the locator accepts only value == Amount)
 				if verdict, _ := c03LocatedValue(m, amtArg, sh.Fr, locs, c03Wire+".TxOut.Value"); verdict != "ok" {
-					bad = "the amount committed to by the signature comes from " + strings.Join(as.Names(), ", ") + ", neither OpeningParams.Amount nor the value of the located output"
+					msg := "the amount committed to by the signature comes from " + strings.Join(as.Names(), ", ") + ", neither OpeningParams.Amount nor the value of the located output"
+					if len(as.Leaves) == 0 || c03Opaque(as.Leaves, nil) || verdict == "unknown" {
+						unknown = msg
+					} else {
+						bad = msg
+					}
 					break
 				}
 			}
@@ -1309,17 +1543,26 @@ func c03R3(c *an.Check, m *c03Impl, ws *c03Witness, locs []*ssa.Call) bool {
 // c03LocatedValue: v is outs[i].<valueField> with i from a locator of this
 // implementation and outs from ClaimParams.OpeningTxHex.
 func c03LocatedValue(m *c03Impl, v ssa.Value, fr *c03Frame, locs []*ssa.Call, valueField string) (verdict, why string) {
-	for {
-		if cv, ok := v.(*ssa.Convert); ok {
-			v = cv.X
-			continue
+	up := func(x ssa.Value) ssa.Value { // parameters of helpers -> arguments; conversions stripped
+		for {
+			if cv, ok := x.(*ssa.Convert); ok {
+				x = cv.X
+				continue
+			}
+			if prm, ok := x.(*ssa.Parameter); ok && fr.parent != nil {
+				if i := c02ParamIndex(prm); i >= 0 && i < len(fr.site.Call.Args) {
+					x, fr = fr.site.Call.Args[i], fr.parent
+					continue
+				}
+			}
+			return x
 		}
-		break
 	}
+	v = up(v)
 	ld, ok := v.(*ssa.UnOp)
 	if ok && ld.Op == token.MUL {
 		if fa, ok := ld.X.(*ssa.FieldAddr); ok && c03FieldKey(fa) == valueField {
-			if el, ok := fa.X.(*ssa.UnOp); ok && el.Op == token.MUL {
+			if el, ok := up(fa.X).(*ssa.UnOp); ok && el.Op == token.MUL {
 				if ia, ok := el.X.(*ssa.IndexAddr); ok {
 					is := m.tr.Trace(ia.Index, fr)
 					okIdx := len(is.Leaves) > 0 && len(is.OpsBeyond("convert:")) == 0
@@ -1338,10 +1581,16 @@ func c03LocatedValue(m *c03Impl, v ssa.Value, fr *c03Frame, locs []*ssa.Call, va
 							okIdx = false
 						}
 					}
+					if !okIdx && (len(is.Leaves) == 0 || c03Opaque(is.Leaves, func(l c03Leaf) bool { _, k := c03Locators[l.Name]; return k })) {
+						return "unknown", "cannot tell which output's value is signed for: " + strings.Join(is.Names(), ", ")
+					}
 					if !okIdx {
 						return "bad", "the value commitment signed for is that of output " + strings.Join(is.Names(), ", ") + ", not of the output whose index goes into the outpoint"
 					}
 					os := m.tr.Trace(ia.X, fr)
+					if !m.onlyOpeningHex(os.Leaves) && c03Opaque(c03Roots(os.Leaves, m.isOpeningHex), nil) {
+						return "unknown", "cannot tell from which transaction the signed value is taken: " + c03Describe(c03Roots(os.Leaves, m.isOpeningHex))
+					}
 					if !m.onlyOpeningHex(os.Leaves) {
 						return "bad", "the value commitment signed for is taken from a transaction other than ClaimParams.OpeningTxHex: " + c03Describe(c03Roots(os.Leaves, m.isOpeningHex))
 					}
@@ -1356,16 +1605,24 @@ func c03LocatedValue(m *c03Impl, v ssa.Value, fr *c03Frame, locs []*ssa.Call, va
 			return "unknown", "the sighash value is a TxOutput.Value reached in a form this rule does not resolve: " + strings.Join(as.Names(), ", ")
 		}
 	}
+	if len(as.Leaves) == 0 || c03Opaque(as.Leaves, nil) {
+		return "unknown", "the sighash value comes from " + strings.Join(as.Names(), ", ") + "; cannot tell whether it is the located output's value"
+	}
 	return "bad", "the Liquid sighash commits to " + strings.Join(as.Names(), ", ") + " instead of the value commitment of the located (confidential) output: the signature cannot verify"
 }
 
 // ---------------------------------------------------------------------------------
 // R4
 
-func (m *c03Impl) payeeVerdict(leaves []c03Leaf) (ok bool, why string) {
+// payeeVerdict: "ok" when the script derives from a wallet address call (plus
+// constants and the back-end's own configuration), "bad" when it positively
+// derives from call parameters / swap data, "unknown" when a source could not
+// be interpreted.
+func (m *c03Impl) payeeVerdict(leaves []c03Leaf) (verdict, why string) {
 	isAddr := func(l c03Leaf) bool { return l.Kind == "call" && c03AddressCalls[l.Name] && l.Idx == 0 }
 	roots := c03Roots(leaves, isAddr)
 	nAddr := 0
+	foreign, opaque := "", ""
 	for _, r := range roots {
 		switch {
 		case isAddr(r):
@@ -1373,14 +1630,74 @@ func (m *c03Impl) payeeVerdict(leaves []c03Leaf) (ok bool, why string) {
 		case r.Kind == "const" || r.Kind == "zero":
 		case m.isParam(r, 0):
 			// configuration of the back-end itself (chain parameters, network)
+		case r.Kind == "param" || r.Kind == "field":
+			foreign = r.String()
 		default:
-			return false, "the destination script of the spend derives from " + r.String() + " (all sources: " + c03Describe(leaves) + "): only a fresh address of the node's own wallet may be paid"
+			opaque = r.String()
 		}
 	}
-	if nAddr == 0 {
-		return false, "the destination script of the spend does not derive from any wallet address call (sources: " + c03Describe(roots) + ")"
+	switch {
+	case foreign != "":
+		return "bad", "the destination script of the spend derives from " + foreign + " (all sources: " + c03Describe(leaves) + "): only a fresh address of the node's own wallet may be paid"
+	case opaque != "":
+		return "unknown", "the destination script of the spend derives from " + opaque + ", which this rule cannot interpret (all sources: " + c03Describe(leaves) + ")"
+	case nAddr == 0:
+		return "bad", "the destination script of the spend does not derive from any wallet address call (sources: " + c03Describe(leaves) + ")"
 	}
-	return true, ""
+	return "ok", ""
+}
+
+// c03OutputScripts resolves an output value (the argument of AddTxOut /
+// AddOutput or an element of Transaction.Outputs) to the script values it is
+// built with: the constructor call's script argument or the script field of a
+// struct literal. Each script comes with the frame it lives in.
+func (m *c03Impl) outputScripts(v ssa.Value, fr *c03Frame, ctor string, scriptArg int, scriptField string) (scripts []c03Key, problem string) {
+	set := m.tr.Trace(v, fr)
+	if len(set.Leaves) == 0 {
+		return nil, "the output has no sources"
+	}
+	for _, l := range set.Leaves {
+		switch {
+		case l.Kind == "call" && l.Name == ctor && scriptArg < len(l.Call.Call.Args):
+			scripts = append(scripts, c03Key{l.Call.Call.Args[scriptArg], l.Fr})
+		case l.Kind == "alloc":
+			al, ok := l.Val.(*ssa.Alloc)
+			if !ok {
+				return nil, "the output is " + l.String()
+			}
+			vals := c03LiteralField(al, scriptField)
+			if len(vals) == 0 {
+				// a literal without the script field: an empty script
+				scripts = append(scripts, c03Key{nil, l.Fr})
+			}
+			for _, sv := range vals {
+				scripts = append(scripts, c03Key{sv, l.Fr})
+			}
+		default:
+			return nil, "the output is built by " + l.String() + ", neither the library constructor nor a struct literal"
+		}
+	}
+	return scripts, ""
+}
+
+// c03OnePath: all instructions lie in one function and are executed on one
+// common path (each pair is ordered by reachability or shares a block).
+func c03OnePath(sites []c03Site) bool {
+	for i := range sites {
+		for j := i + 1; j < len(sites); j++ {
+			a, b := sites[i], sites[j]
+			if a.fr != b.fr {
+				return false
+			}
+			if a.in.Block() == b.in.Block() {
+				continue
+			}
+			if !an.ReachBlocks(a.in.Block().Succs, nil, nil)[b.in.Block()] && !an.ReachBlocks(b.in.Block().Succs, nil, nil)[a.in.Block()] {
+				return false
+			}
+		}
+	}
+	return true
 }
 
 func c03R4(c *an.Check, m *c03Impl) bool {
@@ -1388,16 +1705,18 @@ func c03R4(c *an.Check, m *c03Impl) bool {
 	cons := m.name(w) + " outputs"
 	adds := m.callsIn(w, c03AddTxOut)
 	outStores := m.storesIn(c03ElemTx + ".Transaction.Outputs")
+	addOuts := m.callsIn(w, c03AddOutput)
 	rawStores := m.storesIn(c03Wire + ".MsgTx.TxOut")
+	nLiquid := len(outStores) + len(addOuts)
 	switch {
 	case len(rawStores) > 0:
 		c.Unknown("C03.R4", cons, w.Pos(rawStores[0].in.Pos()), "the output list of the Bitcoin transaction is assigned directly; only AddTxOut is supported")
 		return true
-	case len(adds) > 0 && len(outStores) > 0:
+	case len(adds) > 0 && nLiquid > 0:
 		c.Unknown("C03.R4", cons, w.Pos(m.fn.Pos()), "both a Bitcoin and a Liquid transaction are built")
 		return true
-	case len(adds) == 0 && len(outStores) == 0:
-		c.Unknown("C03.R4", cons, w.Pos(m.fn.Pos()), "no AddTxOut call and no store to Transaction.Outputs is reached from this implementation")
+	case len(adds) == 0 && nLiquid == 0:
+		c.Unknown("C03.R4", cons, w.Pos(m.fn.Pos()), "no AddTxOut / AddOutput call and no store to Transaction.Outputs is reached from this implementation")
 		return false
 	}
 	if len(adds) > 0 {
@@ -1407,58 +1726,104 @@ func c03R4(c *an.Check, m *c03Impl) bool {
 			for _, a := range adds {
 				ps = append(ps, w.Pos(a.in.Pos()))
 			}
-			c.Bad("C03.R4", cons, pos, fmt.Sprintf("the spend adds %d outputs (%s): the swap amount must go to a single output of the own wallet", len(adds), strings.Join(ps, ", ")))
+			msg := fmt.Sprintf("the spend adds %d outputs (%s): the swap amount must go to a single output of the own wallet", len(adds), strings.Join(ps, ", "))
+			if c03OnePath(adds) {
+				c.Bad("C03.R4", cons, pos, msg)
+			} else {
+				c.Unknown("C03.R4", cons, pos, msg+" — the calls lie on alternative paths, cannot count the outputs of one execution")
+			}
 			return true
 		}
 		a := adds[0]
 		cc := a.in.(*ssa.Call)
 		if c03InLoop(cc.Block()) {
-			c.Bad("C03.R4", cons, pos, "AddTxOut is executed in a loop: more than one output")
+			c.Unknown("C03.R4", cons, pos, "AddTxOut is executed in a loop: the number of outputs depends on data")
 			return true
 		}
-		os := m.tr.Trace(cc.Call.Args[1], a.fr)
-		if len(os.Leaves) != 1 || os.Leaves[0].Kind != "call" || os.Leaves[0].Name != c03NewTxOut {
-			c.Unknown("C03.R4", cons, pos, "the output is not built by one wire.NewTxOut call: "+strings.Join(os.Names(), ", "))
+		scripts, problem := m.outputScripts(cc.Call.Args[1], a.fr, c03NewTxOut, 1, c03Wire+".TxOut.PkScript")
+		if problem != "" {
+			c.Unknown("C03.R4", cons, pos, problem)
 			return true
 		}
-		ol := os.Leaves[0]
-		sc := m.tr.Trace(ol.Call.Call.Args[1], ol.Fr)
-		ok, why := m.payeeVerdict(sc.Leaves)
-		c.Decide(ok, "C03.R4", cons, pos, "one output, script from a wallet address call", why)
+		var leaves []c03Leaf
+		for _, sc := range scripts {
+			if sc.v == nil {
+				continue
+			}
+			leaves = append(leaves, m.tr.Trace(sc.v, sc.fr).Leaves...)
+		}
+		verdict, why := m.payeeVerdict(leaves)
+		switch verdict {
+		case "ok":
+			c.OK("C03.R4", cons, pos, "one output, script from a wallet address call")
+		case "bad":
+			c.Bad("C03.R4", cons, pos, why)
+		default:
+			c.Unknown("C03.R4", cons, pos, why)
+		}
 		return true
 	}
 	// Liquid
-	pos := w.Pos(outStores[0].in.Pos())
+	var sites []c03Site
+	sites = append(append(sites, outStores...), addOuts...)
+	pos := w.Pos(sites[0].in.Pos())
 	payees, fees := 0, 0
 	bad, unknown := "", ""
-	for _, s := range outStores {
-		st := s.in.(*ssa.Store)
-		if c03InLoop(st.Block()) {
-			bad = "outputs are appended in a loop"
+	type elem struct {
+		v  ssa.Value
+		fr *c03Frame
+	}
+	var elems []elem
+	for _, s := range sites {
+		if c03InLoop(s.in.Block()) {
+			unknown = "outputs are added in a loop: their number depends on data"
 			break
 		}
-		elems, problem := c03AppendedOutputs(w, st)
-		if problem != "" {
-			unknown = problem
-			break
-		}
-		for _, e := range elems {
-			es := m.tr.Trace(e, s.fr)
-			if len(es.Leaves) != 1 || es.Leaves[0].Kind != "call" || es.Leaves[0].Name != c03NewTxOutput {
-				unknown = "an output is not built by one transaction.NewTxOutput call: " + strings.Join(es.Names(), ", ")
+		switch x := s.in.(type) {
+		case *ssa.Store:
+			es, problem := c03AppendedOutputs(w, x)
+			if problem != "" {
+				unknown = problem
 				break
 			}
-			ol := es.Leaves[0]
-			script := ol.Call.Call.Args[2]
-			if b, isConst := c02ConstBytes(w, script, &c02Frame{fn: ol.Call.Parent()}, 0); (isConst && len(b) == 0) || an.IsNilConst(script) {
-				fees++
-				continue
+			for _, e := range es {
+				elems = append(elems, elem{e, s.fr})
 			}
-			payees++
-			sc := m.tr.Trace(script, ol.Fr)
-			if ok, why := m.payeeVerdict(sc.Leaves); !ok {
-				bad = why
+		case *ssa.Call:
+			if len(x.Call.Args) != 2 {
+				unknown = "unexpected AddOutput signature"
+				break
 			}
+			elems = append(elems, elem{x.Call.Args[1], s.fr})
+		}
+	}
+	for _, e := range elems {
+		if unknown != "" {
+			break
+		}
+		scripts, problem := m.outputScripts(e.v, e.fr, c03NewTxOutput, 2, c03ElemTx+".TxOutput.Script")
+		if problem != "" || len(scripts) != 1 {
+			unknown = "an output cannot be resolved: " + problem
+			break
+		}
+		sc := scripts[0]
+		empty := sc.v == nil || an.IsNilConst(sc.v)
+		if !empty {
+			if b, isConst := c02ConstBytes(w, sc.v, &c02Frame{fn: sc.fr.fn}, 0); isConst && len(b) == 0 {
+				empty = true
+			}
+		}
+		if empty {
+			fees++
+			continue
+		}
+		payees++
+		verdict, why := m.payeeVerdict(m.tr.Trace(sc.v, sc.fr).Leaves)
+		switch verdict {
+		case "bad":
+			bad = why
+		case "unknown":
+			unknown = why
 		}
 	}
 	switch {
@@ -1467,11 +1832,25 @@ func c03R4(c *an.Check, m *c03Impl) bool {
 	case unknown != "":
 		c.Unknown("C03.R4", cons, pos, unknown)
 	case payees != 1 || fees != 1:
-		c.Bad("C03.R4", cons, pos, fmt.Sprintf("the Liquid spend has %d payee output(s) and %d explicit fee output(s); it must have exactly one of each", payees, fees))
+		msg := fmt.Sprintf("the Liquid spend has %d payee output(s) and %d explicit fee output(s); it must have exactly one of each", payees, fees)
+		if c03OnePath(sites) {
+			c.Bad("C03.R4", cons, pos, msg)
+		} else {
+			c.Unknown("C03.R4", cons, pos, msg+" — the outputs are added on alternative paths")
+		}
 	default:
 		c.OK("C03.R4", cons, pos, "one payee output with a script from a wallet address call, one explicit fee output")
 	}
 	return true
+}
+
+func c03HasNil(vs []ssa.Value) bool {
+	for _, v := range vs {
+		if v == nil {
+			return true
+		}
+	}
+	return false
 }
 
 // c03AppendedOutputs: the elements added by `tx.Outputs = append(tx.Outputs, a, b)` or `tx.Outputs = []*TxOutput{a, b}`.
@@ -1489,13 +1868,13 @@ func c03AppendedOutputs(w *an.World, st *ssa.Store) ([]ssa.Value, string) {
 			if !okBase {
 				return nil, "Transaction.Outputs is assigned an append to something other than itself"
 			}
-			if elems, ok := c02ArrayElems(x.Call.Args[1]); ok {
+			if elems, ok := c02ArrayElems(x.Call.Args[1]); ok && !c03HasNil(elems) {
 				return elems, ""
 			}
 			return nil, "Transaction.Outputs is extended by a slice whose elements are not visible"
 		}
 	case *ssa.Slice:
-		if elems, ok := c02ArrayElems(x); ok {
+		if elems, ok := c02ArrayElems(x); ok && !c03HasNil(elems) {
 			return elems, ""
 		}
 	}
@@ -1549,7 +1928,69 @@ func c03NilOnFalse(w *an.World, fn *ssa.Function, verdictIdx, errIdx int) (posit
 	return positions, ""
 }
 
-func c03R5(c *an.Check, order []*ssa.Call, sites map[*ssa.Call]*c03Impl) {
+// c03ReturnsAlso: the return statement also returns one of vals (directly or through a phi).
+func c03ReturnsAlso(ret *ssa.Return, vals []ssa.Value) bool {
+	for _, r := range ret.Results {
+		for _, v := range vals {
+			if r == v {
+				return true
+			}
+			if ph, ok := r.(*ssa.Phi); ok {
+				for _, e := range ph.Edges {
+					if e == v {
+						return true
+					}
+				}
+			}
+		}
+	}
+	return false
+}
+
+// c03CallersGuard: ret returns the index (one of idxVals) of a wrapper together
+// with its error; every production caller must use that result only after
+// testing the wrapper's error. Returns "" when that holds, else why not.
+func c03CallersGuard(w *an.World, ret *ssa.Return, idxVals []ssa.Value) string {
+	fn := ret.Parent()
+	k := -1
+	for i, r := range ret.Results {
+		for _, v := range idxVals {
+			if r == v {
+				k = i
+			}
+		}
+	}
+	if k < 0 {
+		return "the index is returned by " + w.FuncName(fn) + " in a form this rule does not follow"
+	}
+	n := 0
+	for _, caller := range prodFuncs(w) {
+		for _, ci := range an.Calls(caller) {
+			cc, ok := ci.(*ssa.Call)
+			if !ok || cc.Call.StaticCallee() != fn {
+				continue
+			}
+			n++
+			okE, _ := an.OkEdges(cc)
+			for _, rv := range an.ResultValues(cc, k) {
+				if rv.Referrers() == nil {
+					continue
+				}
+				for _, u := range *rv.Referrers() {
+					if len(okE) == 0 || !an.EdgesDominate(okE, u.Block()) {
+						return w.FuncName(caller) + " uses the index returned by " + w.FuncName(fn) + " at " + w.Pos(u.Pos()) + " without having tested its error"
+					}
+				}
+			}
+		}
+	}
+	if n == 0 {
+		return "no static production caller of " + w.FuncName(fn) + " found"
+	}
+	return ""
+}
+
+func c03R5(c *an.Check, order []*ssa.Call, sites map[*ssa.Call]*c03Impl, nLocImpl int) {
 	w := c.W
 	n := 0
 	for _, call := range order {
@@ -1570,21 +2011,48 @@ func c03R5(c *an.Check, order []*ssa.Call, sites map[*ssa.Call]*c03Impl) {
 			continue
 		}
 		okE, _ := an.OkEdges(call)
-		var unguarded []string
-		for _, u := range uses {
-			if len(okE) == 0 || !an.EdgesDominate(okE, u.Block()) {
-				unguarded = append(unguarded, w.Pos(u.Pos()))
+		errIdx := an.ErrResultIndex(call)
+		consumed := func(idx int) bool { // the result is read somewhere
+			for _, rv := range an.ResultValues(call, idx) {
+				if rv.Referrers() != nil && len(*rv.Referrers()) > 0 {
+					return true
+				}
 			}
+			return false
+		}
+		var unguarded, propagated []string
+		for _, u := range uses {
+			if len(okE) > 0 && an.EdgesDominate(okE, u.Block()) {
+				continue
+			}
+			// `return idx, err`: a wrapper hands index and error to its caller together
+			if ret, ok := u.(*ssa.Return); ok && c03ReturnsAlso(ret, an.ResultValues(call, errIdx)) {
+				if why := c03CallersGuard(w, ret, an.ResultValues(call, loc.Result)); why == "" {
+					continue
+				} else {
+					propagated = append(propagated, why)
+					continue
+				}
+			}
+			unguarded = append(unguarded, w.Pos(u.Pos()))
 		}
 		if len(unguarded) > 0 {
-			c.Bad("C03.R5", cons, pos, "the located index is used at "+strings.Join(unguarded, ", ")+" on a path where the locator's error has not been tested: after a failed search the index is the zero value")
+			msg := "the located index is used at " + strings.Join(unguarded, ", ") + " on a path where the locator's error has not been tested: after a failed search the index is the zero value"
+			if len(okE) == 0 && consumed(errIdx) {
+				c.Unknown("C03.R5", cons, pos, msg+" (the error is consumed in a form this rule does not interpret)")
+			} else {
+				c.Bad("C03.R5", cons, pos, msg)
+			}
+			continue
+		}
+		if len(propagated) > 0 {
+			c.Unknown("C03.R5", cons, pos, "index and error are returned together to the callers: "+strings.Join(propagated, "; "))
 			continue
 		}
 		if loc.Verdict < 0 {
 			c.OK("C03.R5", cons, pos, "index used only after err == nil (this locator has no separate verdict)")
 			continue
 		}
-		errIdx := an.ErrResultIndex(call)
 		nilFalse, undec := c03NilOnFalse(w, callee, loc.Verdict, errIdx)
 		if undec != "" {
 			c.Unknown("C03.R5", cons, pos, undec)
@@ -1605,10 +2073,16 @@ func c03R5(c *an.Check, order []*ssa.Call, sites map[*ssa.Call]*c03Impl) {
 				unverified = append(unverified, w.Pos(u.Pos()))
 			}
 		}
+		if len(unverified) > 0 && len(tEdges) == 0 && consumed(loc.Verdict) {
+			c.Unknown("C03.R5", cons, pos, "the locator's verdict is consumed in a form this rule does not interpret; cannot tell whether the index is used only when it is true")
+			continue
+		}
 		c.Decide(len(unverified) == 0, "C03.R5", cons, pos, "index used only under verdict == true",
 			fmt.Sprintf("%s returns (false, 0, nil) at %s when no output has the swap amount or the first such output carries another script; this caller discards the verdict and uses the index (%s): it then spends/sign for output 0 of a transaction in which the swap output was NOT found", strings.TrimPrefix(name, "func:"), strings.Join(nilFalse, " and "), strings.Join(unverified, ", ")))
 	}
-	c.AtLeast("C03.R5", "locator call sites in spend builders", n, 7)
+	_ = n
+	// floor on semantic instances: every spend builder reaches a locator (possibly a shared one)
+	c.AtLeast("C03.R5", "spend builders that reach an output locator", nLocImpl, 9)
 	// the same locator outside the spend builders (opening transaction): C08.R5's instances
 	for _, fn := range prodFuncs(w) {
 		for _, ci := range an.Calls(fn) {
@@ -1621,4 +2095,443 @@ func c03R5(c *an.Check, order []*ssa.Call, sites map[*ssa.Call]*c03Impl) {
 			}
 		}
 	}
+}
+
+// ---------------------------------------------------------------------------------
+// R6: what the Bitcoin output locator selects
+
+func c03Strip(v ssa.Value) ssa.Value {
+	for {
+		switch x := v.(type) {
+		case *ssa.Convert:
+			v = x.X
+		case *ssa.ChangeType:
+			v = x.X
+		default:
+			return v
+		}
+	}
+}
+
+// c03Operands: transitive operand closure of the roots.
+func c03Operands(roots ...ssa.Value) map[ssa.Value]bool {
+	seen := map[ssa.Value]bool{}
+	var visit func(v ssa.Value)
+	visit = func(v ssa.Value) {
+		if v == nil || seen[v] {
+			return
+		}
+		seen[v] = true
+		if in, ok := v.(ssa.Instruction); ok {
+			for _, op := range in.Operands(nil) {
+				if op != nil && *op != nil {
+					visit(*op)
+				}
+			}
+		}
+	}
+	for _, r := range roots {
+		visit(r)
+	}
+	return seen
+}
+
+type c03Cmp struct {
+	edge an.Edge
+	a, b ssa.Value
+}
+
+// c03EqualityFacts: edges on which bytes.Equal(a,b) is true or bytes.Compare(a,b) == 0.
+func c03EqualityFacts(w *an.World, fn *ssa.Function) []c03Cmp {
+	var out []c03Cmp
+	for _, f := range w.Facts(fn) {
+		var cmp *ssa.Call
+		switch {
+		case f.Rel == "true":
+			if cc, ok := f.Cond.(*ssa.Call); ok && w.Info(cc).Name == "func:bytes.Equal" {
+				cmp = cc
+			}
+		case f.Rel == "==" && !f.NonNum && f.Const == 0 && len(f.Terms) == 1:
+			for _, side := range []ssa.Value{f.LV, f.RV} {
+				if side == nil {
+					continue
+				}
+				if cc, ok := c03Strip(side).(*ssa.Call); ok && w.Info(cc).Name == "func:bytes.Compare" {
+					cmp = cc
+				}
+			}
+		}
+		if cmp != nil && len(cmp.Call.Args) == 2 {
+			out = append(out, c03Cmp{edge: f.Edge, a: cmp.Call.Args[0], b: cmp.Call.Args[1]})
+		}
+	}
+	return out
+}
+
+// c03HelperAtoms: facts dominating blk whose condition is a call this rule
+// does not interpret (an in-module predicate, a closure) — a test may hide there.
+func c03HelperAtoms(w *an.World, facts []an.Fact) []string {
+	var out []string
+	for _, f := range facts {
+		if f.Rel != "true" && f.Rel != "false" {
+			continue
+		}
+		cc, ok := f.Cond.(*ssa.Call)
+		if !ok {
+			continue
+		}
+		n := w.Info(cc).Name
+		if n == "func:bytes.Equal" {
+			continue
+		}
+		out = append(out, n)
+	}
+	return out
+}
+
+func c03FactsAt(w *an.World, blk *ssa.BasicBlock) []an.Fact {
+	facts := w.FactsDominatingBlock(blk)
+	if len(blk.Preds) == 1 {
+		for _, f := range w.Facts(blk.Parent()) {
+			if f.Edge.To() == blk && f.Edge.From == blk.Preds[0] {
+				facts = append(facts, f)
+			}
+		}
+	}
+	return facts
+}
+
+// c03AmountHelper: call is `pred(out, params)` of an in-module function whose
+// single result is `out.Value == int64(params.Amount)` of its own parameters.
+func c03AmountHelper(w *an.World, f an.Fact, out, params ssa.Value) bool {
+	cc, ok := f.Cond.(*ssa.Call)
+	if !ok || f.Rel != "true" {
+		return false
+	}
+	g := cc.Call.StaticCallee()
+	if g == nil || !w.InModule(g) || g.Blocks == nil {
+		return false
+	}
+	oi, pi := -1, -1
+	for i, a := range cc.Call.Args {
+		if a == out {
+			oi = i
+		}
+		if a == params {
+			pi = i
+		}
+	}
+	rets := an.Returns(g)
+	if oi < 0 || pi < 0 || len(rets) != 1 || len(rets[0].Results) != 1 || oi >= len(g.Params) || pi >= len(g.Params) {
+		return false
+	}
+	bo, ok := rets[0].Results[0].(*ssa.BinOp)
+	if !ok || bo.Op != token.EQL {
+		return false
+	}
+	isField := func(v ssa.Value, key string, base ssa.Value) bool {
+		ld, ok := c03Strip(v).(*ssa.UnOp)
+		if !ok || ld.Op != token.MUL {
+			return false
+		}
+		fa, ok := ld.X.(*ssa.FieldAddr)
+		return ok && fa.X == base && strings.HasSuffix(c03FieldKey(fa), key)
+	}
+	for _, pr := range [][2]ssa.Value{{bo.X, bo.Y}, {bo.Y, bo.X}} {
+		if isField(pr[0], "TxOut.Value", g.Params[oi]) && isField(pr[1], "OpeningParams.Amount", g.Params[pi]) {
+			return true
+		}
+	}
+	return false
+}
+
+type c03Point struct {
+	blk  *ssa.BasicBlock // facts dominating this block hold at the point
+	via  *an.Edge        // plus the fact of this edge (phi expansion), may be nil
+	idx  ssa.Value       // the index reported at the point
+	sure bool            // the verdict is the constant true here (or the locator has no verdict and err is nil)
+}
+
+// c03SuccessPoints expands a return statement into the points at which the
+// locator may report success: a returned phi verdict / error / index is split
+// into (incoming value, predecessor) pairs.
+func c03SuccessPoints(w *an.World, r *ssa.Return, loc c03Locator, errIdx int) []c03Point {
+	blk := r.Block()
+	phiIn := func(v ssa.Value) *ssa.Phi {
+		if ph, ok := v.(*ssa.Phi); ok && ph.Block() == blk {
+			return ph
+		}
+		return nil
+	}
+	var verdict, errv ssa.Value
+	if loc.Verdict >= 0 && loc.Verdict < len(r.Results) {
+		verdict = r.Results[loc.Verdict]
+	}
+	if errIdx >= 0 && errIdx < len(r.Results) {
+		errv = r.Results[errIdx]
+	}
+	idx := r.Results[loc.Result]
+	isFalse := func(v ssa.Value) bool {
+		k, ok := v.(*ssa.Const)
+		return ok && k.Value != nil && k.Value.ExactString() == "false"
+	}
+	isTrue := func(v ssa.Value) bool {
+		k, ok := v.(*ssa.Const)
+		return ok && k.Value != nil && k.Value.ExactString() == "true"
+	}
+	nonNilErr := func(e ssa.Value, at *ssa.BasicBlock) bool {
+		if e == nil || an.IsNilConst(e) {
+			return false
+		}
+		if cc, ok := e.(*ssa.Call); ok {
+			n := w.Info(cc).Name
+			if n == "func:errors.New" || n == "func:fmt.Errorf" {
+				return true
+			}
+		}
+		for _, f := range w.FactsDominatingBlock(at) {
+			if f.NonNum && f.Rel == "!=" && ((f.LV == e && an.IsNilConst(f.RV)) || (f.RV == e && an.IsNilConst(f.LV))) {
+				return true
+			}
+		}
+		return false
+	}
+	vph, eph, iph := phiIn(verdict), phiIn(errv), phiIn(idx)
+	if vph == nil && eph == nil {
+		if (verdict != nil && isFalse(verdict)) || nonNilErr(errv, blk) {
+			return nil
+		}
+		return []c03Point{{blk: blk, idx: idx, sure: (verdict == nil && an.IsNilConst(errv)) || (verdict != nil && isTrue(verdict))}}
+	}
+	var out []c03Point
+	for k, pred := range blk.Preds {
+		v, e, i := verdict, errv, idx
+		if vph != nil {
+			v = vph.Edges[k]
+		}
+		if eph != nil {
+			e = eph.Edges[k]
+		}
+		if iph != nil {
+			i = iph.Edges[k]
+		}
+		if (v != nil && isFalse(v)) || nonNilErr(e, pred) {
+			continue
+		}
+		var via *an.Edge
+		for si, sc := range pred.Succs {
+			if sc == blk {
+				via = &an.Edge{From: pred, Idx: si}
+			}
+		}
+		out = append(out, c03Point{blk: pred, via: via, idx: i, sure: (v == nil && an.IsNilConst(e)) || (v != nil && isTrue(v))})
+	}
+	return out
+}
+
+func c03R6(c *an.Check, tr *c03Tracer, scriptParamsIdx int) {
+	w := c.W
+	var names []string
+	for n, l := range c03Locators {
+		if !l.ByScript {
+			names = append(names, n)
+		}
+	}
+	sort.Strings(names)
+	nRet := 0
+	for _, name := range names {
+		loc := c03Locators[name]
+		var fn *ssa.Function
+		for _, f := range prodFuncs(w) {
+			if "func:"+w.FuncName(f) == name {
+				fn = f
+			}
+		}
+		if fn == nil || loc.ParamsArg >= len(fn.Params) || loc.TxArg >= len(fn.Params) {
+			c.Anchor("output locator %s does not resolve", name)
+			continue
+		}
+		params := ssa.Value(fn.Params[loc.ParamsArg])
+		root := &c03Frame{fn: fn}
+		m := &c03Impl{fn: fn, root: root, tr: tr, paramsP: loc.ParamsArg, claimP: -1, signerP: -1}
+		errIdx := -1
+		res := fn.Signature.Results()
+		for i := res.Len() - 1; i >= 0; i-- {
+			if an.IsErrorType(res.At(i).Type()) {
+				errIdx = i
+				break
+			}
+		}
+		for _, r := range an.Returns(fn) {
+			if loc.Result >= len(r.Results) {
+				continue
+			}
+			for _, pt := range c03SuccessPoints(w, r, loc, errIdx) {
+				r, ptBlk, ptVia, ptIdx, ptSure := r, pt.blk, pt.via, pt.idx, pt.sure
+				nRet++
+				cons := strings.TrimPrefix(name, "func:") + " success return"
+				pos := w.Pos(r.Pos())
+				// (a) script equality on an output
+				var out ssa.Value
+				scriptNote := ""
+				for _, cmp := range c03EqualityFacts(w, fn) {
+					if !(an.EdgeDominates(cmp.edge, ptBlk) || (ptVia != nil && cmp.edge == *ptVia)) {
+						continue
+					}
+					for _, pr := range [][2]ssa.Value{{cmp.a, cmp.b}, {cmp.b, cmp.a}} {
+						ld, ok := c03Strip(pr[1]).(*ssa.UnOp)
+						if !ok || ld.Op != token.MUL {
+							continue
+						}
+						fa, ok := ld.X.(*ssa.FieldAddr)
+						if !ok || c03FieldKey(fa) != c03Wire+".TxOut.PkScript" {
+							continue
+						}
+						ss := tr.Trace(pr[0], root)
+						okScript, opaque := false, false
+						isScriptLeaf := func(l c03Leaf) bool { return l.Kind == "call" && l.Name == c03Script }
+						for _, l := range c03Roots(ss.Leaves, isScriptLeaf) {
+							switch {
+							case l.Kind == "call" && l.Name == c03Script && l.Idx == 0:
+								pp := tr.Trace(l.Call.Call.Args[scriptParamsIdx], l.Fr)
+								if m.onlyParam(pp.Leaves, loc.ParamsArg) {
+									okScript = true
+								} else {
+									scriptNote = "the expected script is built from " + c03Describe(pp.Leaves) + ", not from the locator's OpeningParams"
+								}
+							case l.Kind == "const" || l.Kind == "zero":
+							case l.Kind == "param" && l.Fr == root && l.Idx == 0: // chain configuration of the receiver
+							default:
+								opaque = true
+							}
+						}
+						if okScript && !opaque {
+							out = fa.X
+						} else if opaque && scriptNote == "" {
+							scriptNote = "the script the output is compared with comes from " + strings.Join(ss.Names(), ", ") + " (not interpretable)"
+						}
+					}
+				}
+				if out == nil {
+					helpers := c03HelperAtoms(w, w.FactsDominatingBlock(ptBlk))
+					switch {
+					case scriptNote != "":
+						c.Unknown("C03.R6", cons, pos, scriptNote)
+					case !ptSure:
+						c.Unknown("C03.R6", cons, pos, "the verdict returned here is not a constant; cannot tell on which paths this return reports success")
+					case len(helpers) > 0:
+						c.Unknown("C03.R6", cons, pos, fmt.Sprintf("no bytes.Equal / bytes.Compare test of an output script dominates this return; the predicates %v are not interpreted", helpers))
+					default:
+						c.Bad("C03.R6", cons, pos, "the locator reports an index without the script of that output having been compared with the script of ParamsToTxScript(params): the builders spend an output that need not be the swap output")
+					}
+					continue
+				}
+				// (b) the output candidates and the amount test on each
+				type cand struct {
+					v   ssa.Value
+					blk *ssa.BasicBlock
+					k   int // phi edge, -1 if not a phi
+				}
+				var cands []cand
+				var outPhi *ssa.Phi
+				if ph, ok := out.(*ssa.Phi); ok {
+					outPhi = ph
+					for k, e := range ph.Edges {
+						if an.IsNilConst(e) {
+							continue
+						}
+						cands = append(cands, cand{e, ph.Block().Preds[k], k})
+					}
+				} else if in, ok := out.(ssa.Instruction); ok {
+					cands = append(cands, cand{out, in.Block(), -1})
+				}
+				if len(cands) == 0 {
+					c.Unknown("C03.R6", cons, pos, "cannot enumerate the outputs the compared script may belong to: "+w.Term(out))
+					continue
+				}
+				idx := c03Strip(ptIdx)
+				bad, unknown := "", ""
+				for _, cd := range cands {
+					// amount
+					// facts at the selection of the candidate and facts at the success point itself
+					// (the test may come before or after the output is picked)
+					facts := append(c03FactsAt(w, cd.blk), w.FactsDominatingBlock(ptBlk)...)
+					if ptVia != nil {
+						for _, f := range w.Facts(fn) {
+							if f.Edge == *ptVia {
+								facts = append(facts, f)
+							}
+						}
+					}
+					found := false
+					for _, f := range facts {
+						if an.MatchLin(f, an.LinSpec{Rel: "==", Terms: map[string]int64{"OpeningParams.Amount": 1, "TxOut.Value": -1}}) {
+							ops := c03Operands(f.LV, f.RV)
+							if (ops[cd.v] || ops[out]) && ops[params] {
+								found = true
+							}
+						}
+						if c03AmountHelper(w, f, cd.v, params) || c03AmountHelper(w, f, out, params) {
+							found = true
+						}
+					}
+					if !found {
+						if helpers := c03HelperAtoms(w, facts); len(helpers) > 0 {
+							unknown = fmt.Sprintf("no `out.Value == params.Amount` fact at the selection of the output; the predicates %v are not interpreted", helpers)
+						} else if !ptSure {
+							unknown = "no `out.Value == params.Amount` fact at the selection of the output, and the verdict returned here is not a constant"
+						} else {
+							bad = "the output whose index is reported is not selected under `out.Value == int64(params.Amount)` (exact equality on that very output); its script alone decides: ValidateTx accepts the opening transaction by the first output with the swap AMOUNT and the builders sign for OpeningParams.Amount, so with a second output to the swap script in front of the real one the locator picks an output the validator never looked at and every claim / coop / CSV spend is invalid. Facts at the selection: " + an.DescribeFacts(facts)
+						}
+						continue
+					}
+					// (c) the reported index is the position of that output in the outputs of the given transaction
+					ld, ok := c03Strip(cd.v).(*ssa.UnOp)
+					var ia *ssa.IndexAddr
+					if ok && ld.Op == token.MUL {
+						ia, _ = ld.X.(*ssa.IndexAddr)
+					}
+					if ia == nil {
+						unknown = "the selected output is not an element of a slice: " + w.Term(cd.v)
+						continue
+					}
+					want := c03Strip(ia.Index)
+					got := idx
+					if ph, ok := idx.(*ssa.Phi); ok && outPhi != nil && ph.Block() == outPhi.Block() && cd.k >= 0 {
+						got = c03Strip(ph.Edges[cd.k])
+					}
+					if got != want {
+						if k, isConst := got.(*ssa.Const); isConst {
+							bad = "the reported index is the constant " + k.String() + ", not the position of the selected output"
+						} else {
+							unknown = "cannot relate the reported index " + w.Term(got) + " to the position " + w.Term(want) + " of the selected output"
+						}
+						continue
+					}
+					txs := tr.Trace(ia.X, root)
+					onlyTx := len(txs.Leaves) > 0
+					for _, rt := range c03Roots(txs.Leaves, nil) {
+						if rt.Kind == "const" {
+							continue
+						}
+						if !(rt.Kind == "param" && rt.Fr == root && rt.Idx == loc.TxArg) {
+							onlyTx = false
+						}
+					}
+					if !onlyTx {
+						unknown = "the outputs searched come from " + c03Describe(c03Roots(txs.Leaves, nil)) + ", not only from the transaction argument"
+					}
+				}
+				switch {
+				case bad != "":
+					c.Bad("C03.R6", cons, pos, bad)
+				case unknown != "":
+					c.Unknown("C03.R6", cons, pos, unknown)
+				default:
+					c.OK("C03.R6", cons, pos, "index of the output selected under value == params.Amount and script == script(ParamsToTxScript(params))")
+				}
+			}
+		}
+	}
+	c.AtLeast("C03.R6", "success returns of Bitcoin output locators", nRet, 1)
 }
